@@ -181,18 +181,29 @@ const e2eMaxTime = 40 * time.Millisecond
 
 // block starts Server.blockingQuery for q with MinQueryIndex = the index reported for the current state.
 func block(srv *consul.VerifC06Server, q *query, cur obs) *blocked {
+	return blockFor(srv, q, cur, e2eMaxTime)
+}
+
+// absent: the canonical "nothing there" answers, for which the single-entry endpoints (KVS.Get, Session.Get,
+// ConfigEntry.Get …) return the ErrNotFound sentinel
+func absent(res string) bool { return res == "-" || res == "nil" }
+
+func blockFor(srv *consul.VerifC06Server, q *query, cur obs, maxTime time.Duration) *blocked {
 	b := &blocked{q: q, min: reported(cur.idx), before: cur.res, done: make(chan struct{})}
 	started := make(chan struct{})
 	go func() {
 		defer close(b.done)
 		t0 := time.Now()
 		first := true
-		_ = srv.BlockingQuery(b.min, e2eMaxTime, &b.meta, func(ws memdb.WatchSet, st *state.Store) error {
+		_ = srv.BlockingQuery(b.min, maxTime, &b.meta, func(ws memdb.WatchSet, st *state.Store) error {
 			idx, res := guard(func() (uint64, string) { return q.Run(st, ws) })
 			b.meta.Index, b.res, b.raw = idx, res, idx
 			if first {
 				first = false
 				close(started)
+			}
+			if absent(res) {
+				return consul.VerifC06ErrNotFound() // as the real endpoints do: exercises the sentinel branch of the loop
 			}
 			return nil
 		})
